@@ -80,6 +80,19 @@ impl Set {
     }
 }
 
+impl Drop for StaticValue {
+    fn drop(&mut self) {
+        // When the model is failing, the `Execution` that owns the statics is
+        // dropped outside of any modeled thread. The value may own loom
+        // objects (e.g. an `Arc`) whose destructors need the execution state;
+        // they would panic again and abort. Leak the value, like the stacks
+        // of the suspended threads.
+        if !crate::rt::Scheduler::is_in_model() {
+            std::mem::forget(std::mem::replace(&mut self.v, Box::new(())));
+        }
+    }
+}
+
 impl StaticKeyId {
     fn new<T>(key: &'static crate::lazy_static::Lazy<T>) -> Self {
         Self(key as *const _ as usize)
